@@ -109,6 +109,20 @@ func Corpus() *Program {
 	msg("EmbP", nil,
 		fld("EpStr", 1, KString), fld("EpNum", 2, KInt32), fld("EpFlag", 3, KBool),
 		fld("EpHidden", 4, KString)) // excluded: a field of a nullable embedded message the schema does not describe
+	// embedded messages inside list elements and map values; three levels of nesting
+	msg("WithEmbed", nil,
+		fld("WeStr", 1, KString),
+		fld("EmbV", 2, KMessage, ref("EmbV"), embed(), nonNull()),
+		fld("EmbP", 3, KMessage, ref("EmbP"), embed()))
+	msg("Outer", []string{"Which"},
+		fld("Inner", 1, KMessage, ref("Mid")), fld("Inners", 2, KMessage, ref("Mid"), list()),
+		fld("ByKey", 3, KMessage, ref("Mid"), mapOf(), nonNull()),
+		fld("WhichMid", 4, KMessage, ref("Mid"), oneof("Which")), fld("WhichNum", 5, KUint64, oneof("Which")))
+	msg("DeepNest", nil,
+		fld("Label", 1, KString, jsonTag("label_json,omitempty")),
+		fld("Out", 2, KMessage, ref("Outer")), fld("OutV", 3, KMessage, ref("Outer"), nonNull()),
+		fld("EmbList", 4, KMessage, ref("WithEmbed"), list()), fld("EmbMap", 5, KMessage, ref("WithEmbed"), mapOf()),
+		fld("EmbOne", 6, KMessage, ref("WithEmbed"), nonNull()))
 	msg("Embedding", nil,
 		fld("Own", 1, KString),
 		fld("EmbV", 2, KMessage, ref("EmbV"), embed(), nonNull()),
@@ -164,11 +178,11 @@ func Corpus() *Program {
 
 	p.Config = Config{
 		Types: []string{"Scalars", "Temporal", "Collections", "Nesting", "Oneofs", "Embedding", "EmbedOneof",
-			"EmbedDeep", "Naming", "Empties", "Sink"},
+			"EmbedDeep", "Naming", "Empties", "Sink", "DeepNest"},
 		DurationCustomType:          DurationCastName,
 		TimeType:                    SimTimeType,
 		DurationType:                SimDurationType,
-		ExcludeFields:               []string{"Naming.Secret", "Naming.SecretList", "NamedLeaf.Hidden", "Naming.Other.Skip", "EmbP.EpHidden"},
+		ExcludeFields:               []string{"Naming.Secret", "Naming.SecretList", "NamedLeaf.Hidden", "Naming.Other.Skip", "EmbP.EpHidden", "Nesting.PtrList.Attrs", "DeepNest.Out.ByKey.LeafMap"},
 		ComputedFields:              []string{"Scalars.FString", "Sink.Count", "Leaf.Num", "Sink.Spec.Name"},
 		RequiredFields:              []string{"Sink.Name", "Scalars.FInt32"},
 		SensitiveFields:             []string{"Sink.Data", "Leaf.Str"},
